@@ -94,6 +94,27 @@ def gen_data(rng, fn, n=None):
     return data
 
 
+def perturb_data(rng, data):
+    """A near-duplicate of an earlier call's data: same length, same end points, other
+    interior - what a cache keyed on a cheap fingerprint of its input cannot tell apart."""
+    out = copy.deepcopy(data)
+    for k, spec in out.items():
+        vals = spec["values"]
+        n = len(vals)
+        if n < 3 or rng.chance(0.3):
+            continue
+        if k == "tinp":
+            lo, hi = vals[0], vals[-1]
+            if hi - lo > n:
+                inner = sorted(rng.sample(range(lo + 1, hi), n - 2))
+                spec["values"] = [lo] + inner + [hi]
+        elif spec["carrier"] != "dt64_nat":
+            for _ in range(rng.randint(1, max(1, n // 3))):
+                i = rng.randint(1, n - 2)
+                vals[i] = None if rng.chance(0.15) else rng.dyadic(-8, 8)
+    return out
+
+
 def gen_params(rng, fn, data):
     gen = FUNCS[fn][2]
     if fn == "attenuated_signal_test":
@@ -127,6 +148,9 @@ def generate(rng, tier="quick"):
         if kind == "call" or not calls:
             fn = rng.weighted([(f, WEIGHTS[f]) for f in names])
             data = gen_data(rng, fn)
+            prev = [j for j in calls if ops[j]["fn"] == fn]
+            if prev and rng.chance(0.3):
+                data = perturb_data(rng, ops[rng.pick(prev)]["data"])
             op = {"op": "call", "fn": fn, "data": data, "params": gen_params(rng, fn, data), "dirty": dirty}
             calls.append(len(ops))
         elif kind == "repeat":
@@ -134,7 +158,7 @@ def generate(rng, tier="quick"):
         else:
             of = rng.pick(calls)
             fn = ops[of]["fn"]
-            data = gen_data(rng, fn)
+            data = perturb_data(rng, ops[of]["data"]) if rng.chance(0.5) else gen_data(rng, fn)
             if ops[of]["params"].get("dtype") == "datetime64[ns]" or data["inp" if "inp" in data else "lon"]["carrier"] == "dt64_nat":
                 # parameter objects and data must stay compatible (datetime span <-> datetime data)
                 op = {"op": "repeat", "of": of, "dirty": dirty}
